@@ -91,6 +91,13 @@ def run():
         text = ['HugePool 16', 'AllocCache c1 any any jit=1', 'InitCache c1 K1'] + ['AllocCache c2 any any jit=%d large=1' % (q % 2) for q in range(nfail)] + \
                ['CreateVm v1 CL c1 none v2=0 hard=1 secure=1 large=1', 'Hash v1 I1 key=K1', 'DestroyVm v1', 'CreateVm v1 IL c1 none v2=1 hard=0 secure=0 large=1', 'Hash v1 I2 key=K1', 'DestroyVm v1', 'ReleaseCache c1']
         scens.append({'text': '\n'.join(text) + '\n', 'case': ('streak', False, True, nfail, 'hugepool'), 'ks': 0, 'huge': True})
+    # the kernel may place a mapping at a 2 MiB-aligned address (about 1 in 512): forced here, create / use / destroy cycles must still give
+    # back every mapped byte
+    for jit in (0, 1):
+        text = ['AlignMaps 1', 'AllocCache c1 any any jit=%d' % jit, 'InitCache c1 K1', 'CreateVm v1 %s c1 none v2=0 hard=0 secure=%d' % ('CL' if jit else 'IL', jit), 'Hash v1 I1 key=K1',
+                'DestroyVm v1', 'CreateVm v1 CL c1 none v2=1 hard=1 secure=0', 'Hash v1 I2 key=K1', 'DestroyVm v1', 'ReleaseCache c1',
+                'AllocCache c1 any any jit=1', 'InitCache c1 K1', 'ReleaseCache c1']
+        scens.append({'text': '\n'.join(text) + '\n', 'case': ('aligned', bool(jit), False, 0, 'alignmaps'), 'ks': 0, 'huge': True})
     # ks 5: a 64-byte key, so that copying the key string into the VM is a heap request of its own (small-string buffer: 15 bytes)
     tabs = apiscen.fresh_tables([(0, 0), (5, 0)], ['IL', 'CL', 'IF', 'CF'] if ck.thorough else ['IL', 'CL'], os.path.join(wd, 'fresh'))
     for s in scens:
